@@ -274,30 +274,32 @@ fn tx_json_e2e_unrepresentable_key_blames_serializer() {
 	assert!(written_is(b"{"), "bytes after the refused key");
 }
 
-/// `[true,{"k":null}]` with a writer that starts failing at ANY byte k of the output: the result is
-/// Error::Ser carrying the writer's I/O error (never Ok, never an input error) and the bytes the writer
-/// accepted are exactly the first k bytes of the fault-free output.
+/// `[true,{"k":null}]` with a writer that starts failing at ANY byte k of the output (k enumerated with a
+/// concrete loop counter: 17 runs of the real transcoder + real serializer): the result is Error::Ser carrying
+/// the writer's I/O error (never Ok, never an input error) and the bytes the writer accepted are exactly the
+/// first k bytes of the fault-free output.
 #[kani::proof]
 #[kani::unwind(20)]
 fn tx_json_e2e_writer_fault_at_any_byte() {
 	let expect = b"[true,{\"k\":null}]";
-	let k: usize = kani::any();
-	kani::assume(k < expect.len());
-	unsafe { WRITER_FAILS_AT = k; FIXED_BOOLS = true; }
-	let r = run_script(&[3, 2, 1, 4, 1, 6, 5], 2);
-	match &r {
-		Ok(()) => assert!(false, "a writer fault was swallowed"),
-		Err(Error::De(_)) => assert!(false, "a writer fault was reported as an input error"),
-		Err(Error::Ser(s, _)) => assert!(s.is_io(), "the serializer error does not carry the writer's I/O error"),
+	unsafe { FIXED_BOOLS = true; }
+	let mut k = 0;
+	while k < expect.len() {
+		reset_mocks();
+		unsafe { WPOS = 0; WRITER_FAILS_AT = k; }
+		let r = run_script(&[3, 2, 1, 4, 1, 6, 5], 2);
+		match &r {
+			Ok(()) => assert!(false, "a writer fault was swallowed"),
+			Err(Error::De(_)) => assert!(false, "a writer fault was reported as an input error"),
+			Err(Error::Ser(s, _)) => assert!(s.is_io(), "the serializer error does not carry the writer's I/O error"),
+		}
+		std::mem::forget(r);
+		unsafe {
+			assert!(WPOS == k, "writer accepted bytes after it started failing");
+			let mut i = 0; while i < k { assert!(WLOG[i] == expect[i], "bytes accepted before the fault are not a prefix of the fault-free output"); i += 1; }
+		}
+		k += 1;
 	}
-	std::mem::forget(r);
-	unsafe {
-		assert!(WPOS == k, "writer accepted bytes after it started failing");
-		let mut i = 0; while i < k { assert!(WLOG[i] == expect[i], "bytes accepted before the fault are not a prefix of the fault-free output"); i += 1; }
-	}
-	kani::cover!(k == 5, "fault at the separator between elements");
-	kani::cover!(k == 10, "fault at the ':' between key and value");
-	kani::cover!(k == 16, "fault at the closing bracket");
 }
 
 // ---- end to end into the REAL rmp_serde serializer ------------------------------------------------------
